@@ -144,6 +144,12 @@ def run_schedule(args):
     deadlock = str(e)
   restore()
   if deadlock is None:
+    # a deleted study is created again before the final state is read: rows that outlived their study become visible
+    for c in ([CS] if any(x['rpc'] == 'DeleteStudy' for x in calls.values()) else []):
+      events.append({'ev': 'invoke', 'th': 'P', 'call': c})
+      r = w.run(c)
+      r.pop('exc', None)
+      events.append({'ev': 'return', 'th': 'P', 'resp': r})
     events.append({'ev': 'final', 'post': w.project()})
   return [c[0] for c in s.choices], s.choices, events, deadlock, s.labels
 
@@ -247,7 +253,7 @@ def run(ctx, only=None):
   backends = ['ram', 'sqlmem'] if ctx.thorough else ['ram']
   jobs = []
   for name, prefix, calls, qbound in scen:
-    for b in backends:
+    for b in (backends if 'deletestudy' not in name else ['ram', 'sqlmem']):
       bound = qbound if not ctx.thorough else (None if len(calls) == 2 else 2)
       limit = 4000 if not ctx.thorough else 20000
       if b == 'sqlmem' and bound is None and len(calls) == 2 and any(c['rpc'] == 'SuggestTrials' for c in calls.values()):
